@@ -44,7 +44,7 @@ func registerC20() {
 		Level: "exploration",
 		Rule: "the constant table is generated at check time from the types.go of the tree under test (go/parser) and compiled into the checker; a case is one (type, value): " +
 			"every constant of every generated type, every remaining value of 8- and 16-bit types, and for 32-bit types all neighbours of constants, every single-bit and two-bit value, every OR / sum / difference of two named values, plus 200000 PRNG values; " +
-			"before any sequential use in the worker process, 8 goroutines make the process's first String() calls of each type at the same moment; non-trivial: String() was called and compared (named value: one of the names without the type prefix; other value: Type(n)); the value checks are repeated in a binary built with GOARCH=386 (32-bit int) when the host can run it; plus regeneration of types_string.go with the repository's own stringer (verif-tagged fitgen) compared byte for byte",
+			"before any sequential use in the worker process, 8 goroutines make the process's first String() calls of each type at the same moment; non-trivial: String() was called and compared (named value: one of the names without the type prefix; other value: Type(n)); the value checks are repeated in a binary built with GOARCH=386 (32-bit int) when the host can run it; plus regeneration of types_string.go with the repository's own stringer (verif-tagged fitgen; six runs with GOMAXPROCS default, 1, 3, 6, 7, 12) compared byte for byte",
 		Assume:        []string{"Bool (hand-written in types_man.go, prints prefixed names by design) is reported separately and not judged by the generated-type rule"},
 		MinNontrivial: 100000,
 		WorkerProcs:   4,
@@ -86,11 +86,18 @@ func c20OneType(c *lib.Ctx, idx uint64) {
 			mask = 1<<uint(t.Bits) - 1
 		}
 		nbad := 0
+		held, heldCopy := "", ""
 		check := func(v uint64) {
 			v &= mask
 			var got string
 			o := lib.Guard(func() { got = t.Str(v) })
 			c.Eval()
+			// a string returned earlier must still read the same after later calls
+			if held != heldCopy && nbad < 3 {
+				c.Violation(nil, "%s: a string returned by String() changed after a later call: now %q, was %q", t.Name, held, heldCopy)
+				nbad++
+			}
+			held, heldCopy = got, strings.Clone(got)
 			if o.Panicked {
 				if nbad < 3 {
 					c.Violation(nil, "%s(%d).String() panicked: %s", t.Name, v, o.Panic)
@@ -232,32 +239,61 @@ func c20Tables(c *lib.Ctx) {
 		c.Inconclusive("cannot build the verif-tagged fitgen: %v: %s", err, tail(out, 400))
 		return
 	}
-	outFile := filepath.Join(wd, "types_string.go")
-	run := exec.Command(bin)
-	run.Dir = repo
-	run.Env = append(os.Environ(), "FITGEN_VERIF_STRINGER="+filepath.Join(repo, "types.go")+"|"+outFile+"|"+strings.Join(ours, ","))
-	if out, err := run.CombinedOutput(); err != nil {
-		c.Violation(nil, "the repository's stringer failed on the checked-in types.go: %v: %s", err, tail(out, 400))
-		return
+	// The regeneration is repeated under several GOMAXPROCS values (default, 1, 3, 6, 7, 12): what
+	// the stringer writes must not depend on how many Ps it finds.
+	procs := []string{"", "1", "3", "6", "7", "12"}
+	type regen struct {
+		gen []byte
+		msg string
 	}
-	c.Eval()
-	gen, err := os.ReadFile(outFile)
-	if err != nil {
-		c.Violation(nil, "stringer wrote no output: %v", err)
-		return
+	res := make([]regen, len(procs))
+	var wg sync.WaitGroup
+	for k, p := range procs {
+		wg.Add(1)
+		go func(k int, p string) {
+			defer wg.Done()
+			outFile := filepath.Join(wd, fmt.Sprintf("types_string_%d.go", k))
+			run := exec.Command(bin)
+			run.Dir = repo
+			run.Env = append(os.Environ(), "FITGEN_VERIF_STRINGER="+filepath.Join(repo, "types.go")+"|"+outFile+"|"+strings.Join(ours, ","))
+			if p != "" {
+				run.Env = append(run.Env, "GOMAXPROCS="+p)
+			}
+			if out, err := run.CombinedOutput(); err != nil {
+				res[k].msg = fmt.Sprintf("the repository's stringer failed on the checked-in types.go (GOMAXPROCS=%q): %v: %s", p, err, tail(out, 400))
+				return
+			}
+			gen, err := os.ReadFile(outFile)
+			if err != nil {
+				res[k].msg = fmt.Sprintf("stringer wrote no output: %v", err)
+				return
+			}
+			res[k].gen = gen
+		}(k, p)
 	}
-	if !bytes.Equal(gen, checked) {
-		line := 1
-		for i := 0; i < len(gen) && i < len(checked); i++ {
-			if gen[i] != checked[i] {
-				break
-			}
-			if gen[i] == '\n' {
-				line++
-			}
+	wg.Wait()
+	var gen []byte
+	for k, r := range res {
+		c.Eval()
+		if r.msg != "" {
+			c.Violation(nil, "%s", r.msg)
+			return
 		}
-		c.Violation(nil, "types_string.go is not what the repository's stringer generates from types.go (first difference at line %d; generated %d bytes, checked in %d bytes)", line, len(gen), len(checked))
-		return
+		gen = r.gen
+		if !bytes.Equal(gen, checked) {
+			line := 1
+			for i := 0; i < len(gen) && i < len(checked); i++ {
+				if gen[i] != checked[i] {
+					break
+				}
+				if gen[i] == '\n' {
+					line++
+				}
+			}
+			c.Violation(nil, "types_string.go is not what the repository's stringer generates from types.go with GOMAXPROCS=%q (first difference at line %d; generated %d bytes, checked in %d bytes)", procs[k], line, len(gen), len(checked))
+			return
+		}
+		c.Count("string_table_regenerations_identical", 1)
 	}
 	c.NontrivialN(1)
 	c.Count("string_table_bytes_compared", int64(len(gen)))
